@@ -798,30 +798,30 @@ func runC18(r *RunCtx) error {
 		A, B, C, D := w.accts[0].String(), w.accts[1].String(), w.accts[2].String(), w.accts[3].String()
 		up := strings.ToUpper
 		steps := []interface{}{
-			c18Op{Kind: "block", Signer: 0, Creator: A, ToBlock: []string{B}},                            // list A's inbox: no phantom entry
-			c18Op{Kind: "create", Signer: 1, Creator: up(B), To: A, Contents: `{"n":1}`},                 // blocked, upper-case spelling
-			c18Op{Kind: "create", Signer: 1, Creator: B, To: A, Contents: `{"n":2}`},                     // blocked
-			c18Op{Kind: "create", Signer: 1, Creator: B, To: "alice.jkl", Contents: `{"n":3}`},           // blocked, via the name
-			c18Op{Kind: "block", Signer: 0, Creator: up(A), ToBlock: []string{up(C), "dave.ibc"}},        // blocker in upper case
-			c18Op{Kind: "create", Signer: 2, Creator: C, To: A, Contents: `{"n":4}`},                     // blocked
-			c18Op{Kind: "create", Signer: 3, Creator: up(D), To: up(A), Contents: `{"n":5}`},             // blocked (through the name)
-			c18Op{Kind: "create", Signer: 0, Creator: A, To: B, Contents: `{"n":6}`, Priv: "secret"},     // A may write to B
-			c18Op{Kind: "create", Signer: 0, Creator: A, To: B, Contents: `{"n":7}`},                     // second send in one block: refused
-			c18Op{Kind: "create", Signer: 0, Creator: up(A), To: "bob.jkl", Contents: `{"n":8}`},         // same key again
-			c18Op{Kind: "create", Signer: 2, Creator: C, To: B, Contents: `{"n":9}`},                     // other sender, same block
+			c18Op{Kind: "block", Signer: 0, Creator: A, ToBlock: []string{B}},                        // list A's inbox: no phantom entry
+			c18Op{Kind: "create", Signer: 1, Creator: up(B), To: A, Contents: `{"n":1}`},             // blocked, upper-case spelling
+			c18Op{Kind: "create", Signer: 1, Creator: B, To: A, Contents: `{"n":2}`},                 // blocked
+			c18Op{Kind: "create", Signer: 1, Creator: B, To: "alice.jkl", Contents: `{"n":3}`},       // blocked, via the name
+			c18Op{Kind: "block", Signer: 0, Creator: up(A), ToBlock: []string{up(C), "dave.ibc"}},    // blocker in upper case
+			c18Op{Kind: "create", Signer: 2, Creator: C, To: A, Contents: `{"n":4}`},                 // blocked
+			c18Op{Kind: "create", Signer: 3, Creator: up(D), To: up(A), Contents: `{"n":5}`},         // blocked (through the name)
+			c18Op{Kind: "create", Signer: 0, Creator: A, To: B, Contents: `{"n":6}`, Priv: "secret"}, // A may write to B
+			c18Op{Kind: "create", Signer: 0, Creator: A, To: B, Contents: `{"n":7}`},                 // second send in one block: refused
+			c18Op{Kind: "create", Signer: 0, Creator: up(A), To: "bob.jkl", Contents: `{"n":8}`},     // same key again
+			c18Op{Kind: "create", Signer: 2, Creator: C, To: B, Contents: `{"n":9}`},                 // other sender, same block
 			"advance",
 			c18Op{Kind: "create", Signer: 0, Creator: A, To: B, Contents: `{"n":10}`},
 			c18Op{Kind: "create", Signer: 2, Creator: C, To: "dave.ibc", Contents: `{"n":11}`},
 			"repoint",
-			c18Op{Kind: "create", Signer: 2, Creator: C, To: "dave.ibc", Contents: `{"n":12}`},           // now lands at B
-			c18Op{Kind: "delete", Signer: 0, Creator: A, From: A, Time: T0.UnixMicro()},                  // the sender tries to delete B's entry
-			c18Op{Kind: "delete", Signer: 0, Creator: A, From: B, Time: T0.UnixMicro()},                  // ... naming the recipient
-			c18Op{Kind: "delete", Signer: 3, Creator: D, From: A, Time: T0.UnixMicro()},                  // a stranger
-			c18Op{Kind: "delete", Signer: 1, Creator: B, From: up(A), Time: T0.UnixMicro()},              // recipient, sender respelled: no such entry
-			c18Op{Kind: "delete", Signer: 1, Creator: B, From: A, Time: T0.UnixMicro() + 1},              // recipient, wrong time
-			c18Op{Kind: "delete", Signer: 1, Creator: up(B), From: A, Time: T0.UnixMicro()},              // the recipient, upper-case signer
-			c18Op{Kind: "block", Signer: 1, Creator: B, ToBlock: []string{C, "nobody.jkl", A}},           // aborts at the second target
-			c18Op{Kind: "create", Signer: 2, Creator: C, To: B, Contents: `{"n":13}`},                    // so C is still not blocked... but same key as n=12? (different block time)
+			c18Op{Kind: "create", Signer: 2, Creator: C, To: "dave.ibc", Contents: `{"n":12}`}, // now lands at B
+			c18Op{Kind: "delete", Signer: 0, Creator: A, From: A, Time: T0.UnixMicro()},        // the sender tries to delete B's entry
+			c18Op{Kind: "delete", Signer: 0, Creator: A, From: B, Time: T0.UnixMicro()},        // ... naming the recipient
+			c18Op{Kind: "delete", Signer: 3, Creator: D, From: A, Time: T0.UnixMicro()},        // a stranger
+			c18Op{Kind: "delete", Signer: 1, Creator: B, From: up(A), Time: T0.UnixMicro()},    // recipient, sender respelled: no such entry
+			c18Op{Kind: "delete", Signer: 1, Creator: B, From: A, Time: T0.UnixMicro() + 1},    // recipient, wrong time
+			c18Op{Kind: "delete", Signer: 1, Creator: up(B), From: A, Time: T0.UnixMicro()},    // the recipient, upper-case signer
+			c18Op{Kind: "block", Signer: 1, Creator: B, ToBlock: []string{C, "nobody.jkl", A}}, // aborts at the second target
+			c18Op{Kind: "create", Signer: 2, Creator: C, To: B, Contents: `{"n":13}`},          // so C is still not blocked... but same key as n=12? (different block time)
 			c18Op{Kind: "block", Signer: 1, Creator: B, ToBlock: []string{}},
 			c18Op{Kind: "create", Signer: 2, Creator: C, To: "junk.jkl", Contents: `{"n":14}`},
 			c18Op{Kind: "create", Signer: 2, Creator: C, To: D, Contents: `not json`},
